@@ -4,6 +4,7 @@ package sm4_test
 
 import (
 	"bytes"
+	"crypto/cipher"
 	"encoding/json"
 	"fmt"
 	"testing"
@@ -42,6 +43,8 @@ func c05pEval(r *vx.R, c c05pcase) {
 	r.Eval(1)
 	key := vx.UnHex(c.Key)
 	switch c.Op {
+	case "keyreuse":
+		return
 	case "keylen":
 		var err error
 		var blk interface{}
@@ -147,6 +150,40 @@ func TestVX_C05_Public(t *testing.T) {
 		}
 		if vx.MineIdx(ki) {
 			c05pEval(r, c05pcase{"keyindep", vx.Hex(k), vx.Hex(blocks[ki%len(blocks)]), "plain"})
+		}
+	}
+	// sequences on one key buffer: the caller refills (or wipes) the slice it passed to NewCipher and builds another cipher
+	if vx.MineIdx(0) {
+		for i := 0; i+1 < len(keys); i += 7 {
+			r.Eval(1)
+			k1, k2 := keys[i], keys[(i+1)%len(keys)]
+			buf := append([]byte{}, k1...)
+			c1, err1 := sm4.NewCipher(buf)
+			copy(buf, k2)
+			c2, err2 := sm4.NewCipher(buf)
+			for j := range buf {
+				buf[j] = 0
+			}
+			c3, err3 := sm4.NewCipher(buf)
+			c4, err4 := sm4.NewCipher(append([]byte{}, k1...))
+			cs := c05pcase{Op: "keyreuse", Key: vx.Hex(k1), Block: vx.Hex(k2)}
+			if err1 != nil || err2 != nil || err3 != nil || err4 != nil {
+				r.Violation("sm4:NewCipher:error", "NewCipher failed in a key-buffer reuse sequence", cs)
+				continue
+			}
+			blk := blocks[i%len(blocks)]
+			for ci, pair := range []struct {
+				c   cipher.Block
+				key []byte
+			}{{c1, k1}, {c2, k2}, {c3, make([]byte, 16)}, {c4, k1}} {
+				out := make([]byte, 16)
+				pair.c.Encrypt(out, blk)
+				want := sm4ref.New(pair.key).Encrypt(blk)
+				if !bytes.Equal(out, want[:]) {
+					r.Violation("sm4:NewCipher:key-buffer-reuse", fmt.Sprintf("cipher #%d of the sequence NewCipher(buf=k1); refill buf=k2; NewCipher(buf); wipe buf; NewCipher(buf); NewCipher(copy of k1) does not encrypt under its own key", ci+1), cs)
+				}
+			}
+			r.Shape(fmt.Sprintf("keyreuse:%d", i))
 		}
 	}
 	if vx.MineIdx(0) {
